@@ -90,6 +90,8 @@ def confirms(cand, conc):
     if conc['status'] == 'precondition':
         return False
     if k == 'obligation':
+        if conc['status'] == 'timeout' and 'terminate' in cand['label']:
+            return True
         return cand['label'] in conc['failed']
     if k == 'exc':
         return conc['status'] == 'exc' and conc['exc_type'] == cand.get('exc_type')
@@ -161,7 +163,7 @@ def run_case(args):
                                            result=_json_sig(rec.get('result')),
                                            obligations=[(o['label'], o['status']) for o in rec['obligations']][:8]))
         # validate explored paths against the implementation: re-run a model of each path condition
-        if want_models and getattr(hm, 'VALIDATE_PATHS', True):
+        if want_models and getattr(hm, 'VALIDATE_PATHS', True) and not case.get('no_validate'):
             todo = [r for r in recs if r['outcome'] == 'ok']
             if len(todo) > want_models:
                 rnd = random.Random(case.get('seed', 0))
@@ -346,12 +348,16 @@ def main(argv=None):
     violations = []
     known_hits = {}
     unconfirmed = 0
+    probes_ok = 0
     duplicates = 0
     unconfirmed_samples = []
     for r in results:
         for cand in r['candidates']:
             if cand.get('duplicate'):
                 duplicates += 1
+                continue
+            if not cand.get('confirmed') and r['case'].get('probe'):
+                probes_ok += 1          # a solver-produced float64 probe input that the real package handles correctly
                 continue
             if not cand.get('confirmed'):
                 unconfirmed += 1
@@ -389,7 +395,7 @@ def main(argv=None):
     cov = dict(
         states=agg['paths'], transitions=max(agg['decisions'], 0), traces_validated_against_impl=validated,
         samples=samples or [dict(note='no path explored')], obligations=agg['obligations'], discharged=agg['discharged'],
-        unknown=agg['unknown'], unconfirmed_counterexamples=unconfirmed, duplicate_counterexamples_not_replayed=duplicates, unconfirmed_samples=unconfirmed_samples,
+        unknown=agg['unknown'], unconfirmed_counterexamples=unconfirmed, duplicate_counterexamples_not_replayed=duplicates, float64_probe_inputs_replayed_ok=probes_ok, unconfirmed_samples=unconfirmed_samples,
         not_encodable_paths=len(notenc), not_encodable_samples=sorted(set(notenc))[:5],
         path_outcomes=outcomes, infeasible_paths_pruned=agg['infeasible'], branch_feasibility_unknown_explored_both=agg['decide_unknown'], structural_cases=len(cases), cases_skipped_budget=skipped,
         cases_truncated=truncated, validation_mismatch=mism, validation_skipped=vskip,
